@@ -43,6 +43,7 @@ func main() {
 	dir := flag.String("dir", "", "scratch copy of the repository")
 	seam := flag.String("seam", "", "directory with the verifseam runtime sources")
 	sched := flag.Bool("sched", true, "insert scheduler hooks as well")
+	fuelOnly := flag.Bool("fuelonly", false, "insert nothing but the step counter at the entry of evaluator.Eval (plain flavour)")
 	extract := flag.String("extract", "", "only extract the playground executor from this file into <dir>/verifplay")
 	flag.Parse()
 	if *extract != "" {
@@ -105,7 +106,7 @@ func main() {
 			if !strings.HasPrefix(fname, *dir) {
 				continue
 			}
-			in := &instr{pkg: p, short: short, fset: p.Fset, file: f, fname: fname, sched: *sched}
+			in := &instr{pkg: p, short: short, fset: p.Fset, file: f, fname: fname, sched: *sched, fuelOnly: *fuelOnly}
 			in.run()
 			if len(in.edits) > 0 {
 				edits[fname] = in.edits
@@ -158,6 +159,7 @@ type instr struct {
 	file  *ast.File
 	fname string
 	sched bool
+	fuelOnly bool
 	edits []edit
 	sites []site
 	fn    string
@@ -204,6 +206,14 @@ func (in *instr) run() {
 			}
 		}
 		in.count = nil
+		if in.fuelOnly {
+			if in.pkg.PkgPath == "github.com/Syuparn/pangaea/evaluator" && fd.Name.Name == "Eval" && fd.Recv == nil {
+				p := in.off(fd.Body.Lbrace) + 1
+				in.edits = append(in.edits, edit{p, p, " verifseam.YieldEval();"})
+				in.add("yield", "evaluator.Eval", fd.Pos(), "")
+			}
+			continue
+		}
 		if in.sched {
 			in.schedFunc(fd)
 		}
